@@ -1,0 +1,217 @@
+//! Verification entry points. Compiled only with `--cfg weechess_verif`.
+//!
+//! Nothing here changes how the engine behaves: these are thin wrappers that let a
+//! simulator build small search artifacts, call the real `analyze_iterative` with an
+//! explicit worker count, record positions in an artifact's history, and drive the
+//! (private) transposition table types directly.
+
+use super::*;
+
+/// Build a search artifact with the given table dimensions. The hasher is drawn from
+/// `rng` exactly as the regular fresh-artifact path does.
+pub fn artifact_with(rng: &mut RandomNumberGenerator, tables: usize, buckets: usize) -> SearchArtifact {
+    let hasher = ZobristHasher::with(rng);
+    let state_history = StateHistory::new();
+    let tables = (0..tables)
+        .map(|_| TranspositionTable::with_bucket_count(buckets))
+        .collect();
+
+    SearchArtifact {
+        hasher,
+        transpositions: TranspositionTableAccess::with_tables(tables),
+        state_history,
+    }
+}
+
+/// Fresh artifact whose dimensions are chosen by the simulator instead of 1 GiB.
+pub fn fresh_artifact(rng: &mut RandomNumberGenerator) -> SearchArtifact {
+    let (tables, buckets) = weechess_simrt::knobs::fresh_table_dims();
+    artifact_with(rng, tables, buckets)
+}
+
+pub fn new_artifact(seed: u64, tables: usize, buckets: usize) -> SearchArtifact {
+    let mut rng = RandomNumberGenerator::seed_from_u64(seed);
+    artifact_with(&mut rng, tables, buckets)
+}
+
+/// Handle on the cancellation flag of a synchronous search.
+#[derive(Clone)]
+pub struct Cancel(CancellationToken);
+
+impl Cancel {
+    pub fn new() -> Self {
+        Self(CancellationToken::new().0)
+    }
+
+    pub fn cancel(&self) {
+        self.0.cancel()
+    }
+
+    pub fn is_cancelled(&self) -> bool {
+        self.0.is_cancelled()
+    }
+}
+
+/// Runs the real iterative search on the calling thread.
+pub fn analyze_sync<F>(
+    state: State,
+    evaluator: &eval::Evaluator,
+    rng_seed: u64,
+    max_depth: Option<usize>,
+    workers: Option<usize>,
+    cancel: &Cancel,
+    previous_artifact: Option<SearchArtifact>,
+    f: &mut F,
+) -> SearchArtifact
+where
+    F: FnMut(StatusEvent),
+{
+    let rng = RandomNumberGenerator::seed_from_u64(rng_seed);
+    Searcher::analyze_iterative(
+        state,
+        evaluator,
+        rng,
+        max_depth,
+        cancel.0.clone(),
+        previous_artifact,
+        workers,
+        f,
+    )
+}
+
+/// Record a position in the artifact's history, as if it had been a search root.
+pub fn record_history(artifact: &mut SearchArtifact, state: &State) {
+    let hash = artifact.hasher.hash(state);
+    artifact.state_history.increment(hash);
+}
+
+pub struct ArtifactStats {
+    pub entries: usize,
+    pub max_entries: usize,
+    pub history_len: usize,
+    pub tables: usize,
+}
+
+pub fn artifact_stats(artifact: &SearchArtifact) -> ArtifactStats {
+    ArtifactStats {
+        entries: artifact.transpositions.entries(),
+        max_entries: artifact.transpositions.max_entries(),
+        history_len: artifact.state_history.states.len(),
+        tables: artifact.transpositions.tables.len(),
+    }
+}
+
+pub fn artifact_hash(artifact: &SearchArtifact, state: &State) -> Hash {
+    artifact.hasher.hash(state)
+}
+
+/// Plain-data view of a table entry.
+#[derive(Clone, Copy, Debug, PartialEq, Eq)]
+pub struct EntryView {
+    /// 0 = exact, 1 = upper bound, 2 = lower bound
+    pub kind: u8,
+    pub performed_move: Move,
+    pub depth: usize,
+    pub max_depth: usize,
+    pub evaluation: i32,
+}
+
+impl EntryView {
+    fn from_entry(e: &TranspositionEntry) -> Self {
+        Self {
+            kind: match e.kind {
+                EvaluationKind::Exact => 0,
+                EvaluationKind::UpperBound => 1,
+                EvaluationKind::LowerBound => 2,
+            },
+            performed_move: e.performed_move,
+            depth: e.depth,
+            max_depth: e.max_depth,
+            evaluation: e.evaluation.into(),
+        }
+    }
+
+    fn to_entry(&self) -> TranspositionEntry {
+        TranspositionEntry {
+            kind: match self.kind {
+                0 => EvaluationKind::Exact,
+                1 => EvaluationKind::UpperBound,
+                _ => EvaluationKind::LowerBound,
+            },
+            performed_move: self.performed_move,
+            depth: self.depth,
+            max_depth: self.max_depth,
+            evaluation: eval::Evaluation::from(self.evaluation),
+        }
+    }
+}
+
+/// One occupied slot of the table storage, as found by walking it.
+#[derive(Clone, Copy, Debug)]
+pub struct SlotView {
+    pub table: usize,
+    pub bucket: usize,
+    pub slot: usize,
+    pub key: Hash,
+    pub entry: EntryView,
+}
+
+/// Public wrapper over the private table access layer.
+pub struct Table(TranspositionTableAccess);
+
+impl Table {
+    pub fn new(tables: usize, buckets: usize) -> Self {
+        let tables = (0..tables)
+            .map(|_| TranspositionTable::with_bucket_count(buckets))
+            .collect();
+
+        Self(TranspositionTableAccess::with_tables(tables))
+    }
+
+    pub fn insert(&self, key: Hash, entry: EntryView) {
+        self.0.insert(key, entry.to_entry())
+    }
+
+    pub fn find(&self, key: Hash) -> Option<EntryView> {
+        self.0.find(key).map(|e| EntryView::from_entry(&e))
+    }
+
+    pub fn entries(&self) -> usize {
+        self.0.entries()
+    }
+
+    pub fn max_entries(&self) -> usize {
+        self.0.max_entries()
+    }
+
+    /// Every occupied slot, found by walking the storage (one sub-table lock at a time).
+    pub fn dump(&self) -> Vec<SlotView> {
+        dump_access(&self.0)
+    }
+}
+
+fn dump_access(access: &TranspositionTableAccess) -> Vec<SlotView> {
+    let mut out = Vec::new();
+    for (t, table) in access.tables.iter().enumerate() {
+        let table = table.read().unwrap();
+        for (b, bucket) in table.buckets.iter().enumerate() {
+            for (s, slot) in bucket.entries.iter().enumerate() {
+                if let Some((key, entry)) = slot {
+                    out.push(SlotView {
+                        table: t,
+                        bucket: b,
+                        slot: s,
+                        key: *key,
+                        entry: EntryView::from_entry(entry),
+                    });
+                }
+            }
+        }
+    }
+
+    out
+}
+
+pub fn artifact_dump(artifact: &SearchArtifact) -> Vec<SlotView> {
+    dump_access(&artifact.transpositions)
+}
